@@ -354,6 +354,78 @@ def run(ctx):
     from engine.run import borrow
     borrow(ctx, 'C11', ['WH-NOGROW'], 'metadata set too late (a string replaced after the audio was written) must never alter the audio: the variable-length header writers keep the data offset - fill a shorter header, refuse a longer one before writing it')
 
+    ctx.rule('GUARD-FIELD', 'sf_command: a "too late" guard of the form `psf->F == NULL && psf->have_written` lets a repeated set of an item through when the item already exists; the F it tests is the '
+             'field that the setter called next in the same arm stores (broadcast_var_set -> psf->broadcast_16k, cart_var_set -> psf->cart_16k): a guard that tests the neighbour\'s field lets a first '
+             'cart through after the audio whenever a bext exists - the header no longer fits in front of the data', floor=2)
+    sc_ = prog.fn('sf_command', 'sndfile.c')
+    n_gf = 0
+    for x in sc_.walk():
+        if x['k'] != 'IfStmt':
+            continue
+        cs = sc_.s(x['cond'])
+        if 'have_written' not in cs:
+            continue
+        flds = [m_ for m_ in sc_.walk(sc_.N[x['cond']]) if m_['k'] == 'MemberExpr' and m_.get('n') != 'have_written' and (m_.get('t') or '').rstrip().endswith('*')]
+        if not flds:
+            continue
+        F = sc_.s(flds[0])
+        # the first call after the guard in source order whose callee stores into a handle field of pointer type
+        after = sorted([c_ for c_ in sc_.calls() if (c_.get('l'), c_.get('c')) > (x.get('l'), x.get('c')) and c_.get('callee') in prog.fns], key=lambda c_: (c_.get('l'), c_.get('c')))
+        setter = None
+        for c_ in after[:3]:
+            g_ = prog.fns[c_['callee']][0]
+            st_ = {lv_ for lv_, a_, r_ in assigned_lvalues(g_) if lv_.startswith('psf->') and lv_.count('->') == 1}
+            if st_:
+                setter = (g_, st_)
+                break
+        if setter is None:
+            continue
+        n_gf += 1
+        ok = F in setter[1]
+        ctx.ob('GUARD-FIELD', '%s:%s' % (setter[0].name, F), ok, sc_.loc(x), 'the guard `%s` tests the field that %s stores' % (cs[:60], setter[0].name) if ok else
+               'the guard `%s` tests %s, but the setter called in this arm, %s, stores %s: the item can be set for the first time after the audio has been written' % (cs[:60], F, setter[0].name, sorted(setter[1])), None)
+    ctx.require(n_gf >= 2, 'only %d too-late guards with a setter found in sf_command' % n_gf)
+
+    ctx.rule('LOOP-ACCOUNT', 'a parse loop that runs while a byte counter is below the length of its chunk (`while (bytesread < chunk_length)`, counter fed by `+= psf_binheader_readf (...)` at least '
+             'twice) accounts for every psf_binheader_readf of its body: the result is added to the counter directly, or kept in a local that is added to it, or the read is followed by leaving the '
+             'loop. A read (a skip of a string that is too long) that is not accounted for makes the loop run past the end of its chunk and swallow the chunks that follow - bext, cart, cue, smpl', floor=2)
+    n_la = 0
+    for f_ in sorted(prog.lib_fns(), key=lambda f__: (f__.file, f__.line)):
+        for lp in f_.walk():
+            if lp['k'] not in ('WhileStmt', 'ForStmt', 'DoStmt') or 'cond' not in lp:
+                continue
+            cn = f_.unwrap(f_.N[lp['cond']])
+            if cn.get('k') != 'BinaryOperator' or cn.get('op') not in ('<', '<='):
+                continue
+            X = f_.s(f_.unwrap(f_.N[cn['kids'][0]]))
+            calls = list(f_.calls('psf_binheader_readf', root=f_.N[lp['body']]))
+            def _par(c):
+                par = f_.N[f_.parent[c['id']]]
+                while par['k'] in ('ImplicitCastExpr', 'ParenExpr', 'CStyleCastExpr'):
+                    par = f_.N[f_.parent[par['id']]]
+                return par
+            direct = [c for c in calls if _par(c)['k'] == 'CompoundAssignOperator' and _par(c).get('op') == '+=' and f_.s(_par(c)['kids'][0]) == X]
+            if len(direct) < 2:
+                continue
+            n_la += 1
+            added = {f_.s(f_.unwrap(r_)) for lv_, a_, r_ in assigned_lvalues(f_, f_.N[lp['body']]) if lv_ == X and a_.get('op') == '+=' and r_ is not None}
+            bad = []
+            for c in calls:
+                if c in direct:
+                    continue
+                par = _par(c)
+                if par['k'] == 'BinaryOperator' and par.get('op') == '=' and f_.s(par['kids'][0]) in added:
+                    continue
+                # the read is the last thing before the loop is left: from it no path leads back to the loop condition
+                pc = f_.cfg.point(c)
+                pl = f_.cfg.point(f_.N[lp['cond']]) if isinstance(lp['cond'], int) else f_.cfg.point(lp['cond'])
+                if pc is not None and pl is not None and f_.cfg.path_avoiding(pc, {pl[0]}, set()) is None:
+                    continue
+                bad.append(c)
+            ctx.ob('LOOP-ACCOUNT', '%s@%s' % (f_.name, lp.get('l')), not bad, f_.loc(bad[0]) if bad else f_.loc(lp), '%d read(s) in the loop over `%s`, all accounted for' % (len(calls), X) if not bad else
+                   '`%s` reads or skips bytes inside the loop over `%s` without adding them to it: the loop runs past the end of its chunk and parses the following chunks as sub-chunks' % (f_.s(bad[0])[:70], X), None)
+    ctx.require(n_la >= 2, 'only %d byte-counted parse loops found' % n_la)
+
     ctx.rule('TEXT-SKIP', 'in the chunk parsers (aiff_read_header, wavlike_subchunk_parse, ...) a text chunk that is too large for the local scratch buffer (a test of its size against the capacity of a local '
              'array / BUF_UNION, within 2 bytes) is skipped - the branch contains a `j` skip of that chunk and neither jumps out of the chunk list nor returns an error: one over-long string the '
              'writer accepted must not make the file unreadable (AIFF) or lose every string after it (WAV LIST)', floor=8)
